@@ -51,7 +51,9 @@ def run(ctx):
     for g in range(ngroups):
         folds = 3 if (ctx.quick or g % 2 == 0) else 4
         base = {"data_seed": int(ctx.seed * 100 + g + 1), "n": 900 if ctx.quick else 1500, "folds": folds, "seed": int(7 + g),
-                "workers": 1, "proteins": bool(g % 2 == 0), "peps": "qvality"}
+                "workers": 1, "proteins": bool(g % 2 == 0), "peps": "qvality",
+                # every other group trains on a random subset of each training set (subset_max_train below its size)
+                "cap": (250 if g % 2 == 1 else None)}
         sessions = [("inproc", 0, dict(base)), ("inproc-repeat", 0, dict(base))]
         for hs in ([1, 2] if ctx.quick else [1, 2, 3, 4, 5, 6, 7]):
             sessions.append(("fresh", hs, dict(base)))
@@ -122,7 +124,8 @@ def run(ctx):
     ctx.assume("FASTA maps are compared as sets of member proteins (the join order of shared_peptides values is not part of the statement)")
     ctx.assume("domain: FASTA with decoys (target-only FASTA uses the global NumPy RNG)")
     return ctx.finish(
-        rule="a case = one analysis session (brew with a LinearSVC model + assign_confidence with qvality PEPs, optionally proteins) of a "
+        rule="a case = one analysis session (brew with a LinearSVC model, in every other group with subset_max_train below the training-set "
+             "size, + assign_confidence with qvality PEPs, optionally proteins from a FASTA with sub-proteins and same-sequence entries) of a "
              "(dataset, seed): two in-process repeats, fresh interpreters with PYTHONHASHSEED 1..%d, workers 2 and 4, and models fed back in "
              "%s; distinct = distinct (dataset, session parameters)" % (2 if ctx.quick else 7, "3 orders" if ctx.quick else "every order"),
         exhaustive=False)
